@@ -255,8 +255,9 @@ def scope_project(scope, a, b, snake):
         sdl = f"type Query {{ take(i: In): Int }}\ninput In {{ {a}: Int {b}: Int }}\n"
         q = "query GetIt($i: In) { take(i: $i) }\n"
     elif scope == "variables":
-        sdl = "type Query { take(x: Int, y: Int): Int }\n"
-        q = f"query GetIt(${a}: Int, ${b}: Int) {{ take(x: ${a}, y: ${b}) }}\n"
+        # a nullable variable declared BEFORE a non-null one: the method signature orders them the other way round
+        sdl = "type Query { take(x: Int, y: Int!): Int }\n"
+        q = f"query GetIt(${a}: Int, ${b}: Int!) {{ take(x: ${a}, y: ${b}) }}\n"
     elif scope == "operations":
         sdl = "type Query { one: Int two: Int }\n"
         q = f"query {a} {{ one }}\nquery {b} {{ two }}\n"
@@ -355,11 +356,19 @@ def run_scope(case, scratch):
                 if len(params) != 2:
                     fail(f"method parameters {params} for variables {[a, b]}")
                 else:
-                    pa = [p for p in params if re.sub(r"[^a-z0-9]", "", p.lower()) == re.sub(r"[^a-z0-9]", "", a.lower())]
-                    v, exc = e2e.run_call(pcase, method, {params[0]: 1, params[1]: 2})
-                    if exc is not None or not sent or sorted(sent[-1]["variables"]) != sorted([a, b]) or \
-                            sorted(sent[-1]["variables"].values()) != [1, 2]:
-                        fail(f"sent {sent[-1:] and sent[-1].get('variables')} exc={exc!r}")
+                    cn = lambda x: re.sub(r"[^a-z0-9]", "", x.lower())  # noqa: E731
+                    pa = [p for p in params if cn(p) == cn(a)]
+                    pb = [p for p in params if cn(p) == cn(b)]
+                    if len(pa) == 1 and len(pb) == 1 and pa != pb:
+                        # each parameter is recognisably one variable's: the value must travel under THAT wire name
+                        v, exc = e2e.run_call(pcase, method, {pa[0]: 1, pb[0]: 2})
+                        if exc is not None or not sent or sent[-1]["variables"] != {a: 1, b: 2}:
+                            fail(f"{pa[0]}=1, {pb[0]}=2 sent as {sent[-1:] and sent[-1].get('variables')} exc={exc!r}")
+                    else:
+                        v, exc = e2e.run_call(pcase, method, {params[0]: 1, params[1]: 2})
+                        if exc is not None or not sent or sorted(sent[-1]["variables"]) != sorted([a, b]) or \
+                                sorted(sent[-1]["variables"].values()) != [1, 2]:
+                            fail(f"sent {sent[-1:] and sent[-1].get('variables')} exc={exc!r}")
             else:  # enum values
                 E = pkg.E
                 members = {m.value: m for m in E}
